@@ -257,11 +257,12 @@ def _shrink_json(case: Any, still_fails: Callable[[Any], bool], budget: int = 40
 
     cur = case
     improved = True
-    while improved and steps[0] < budget:
+    t_end = time.time() + 60  # shrinking only improves the report; never let it dominate a run
+    while improved and steps[0] < budget and time.time() < t_end:
         improved = False
         for c in candidates(cur):
             steps[0] += 1
-            if steps[0] >= budget:
+            if steps[0] >= budget or time.time() > t_end:
                 break
             try:
                 if still_fails(c):
